@@ -988,6 +988,10 @@ def sx_isinstance(o, t):
             return int
         if getattr(x, '__name__', '') == 'sx_str':
             return str
+        if x is sx_bytes:
+            return bytes
+        if x is sx_bytearray:
+            return bytearray
         return x
     t = tuple(unshim(x) for x in t) if _isinstance(t, tuple) else unshim(t)
     if _isinstance(o, SInt) and (t is int or (_isinstance(t, tuple) and int in t)):
